@@ -330,6 +330,21 @@ def s2(chk: Check, proj: Project) -> None:
                 stores.append((mm, q, s))
     okq = {q for _m, q, _s in stores} <= {"_prepare_template", "_nodelist_to_slot_render_func"} and len(stores) >= 2
     chk.ob("S2", "flag-writers", stores[0][0].loc(stores[0][2]) if stores else m.loc(f), okq, f"`_djc_is_component_nested` is written only in {sorted({q for _m, q, _s in stores})}" if okq else f"`_djc_is_component_nested` is written in {sorted({q for _m, q, _s in stores})}: templates the library does not own lose isolated_context")
+    # ownership: the flag stays on the object; an object the template LOADER hands out is the same one stock code renders
+    cm = proj.mod("component")
+    gt = cm.func("Component._get_template")
+    chk.analysed(fkey(cm, gt))
+    shared = []
+    for r in [x for x in ast.walk(gt) if isinstance(x, ast.Return) and x.value is not None]:
+        for c in [c for c in ast.walk(r.value) if isinstance(c, ast.Call)]:
+            src = cm.imports.get(last_attr(c.func) or "")
+            if last_attr(c.func) == "get_template" and src is not None and src[0].startswith("django.template"):
+                shared.append(r)
+    resets = [s_ for _m, q, s_ in stores if q == "_prepare_template" and isinstance(s_.value, ast.Constant) and s_.value.value is False] + [c for mm, q, fn in proj.all_funcs() for c in calls(fn) if norm(c.func) == "delattr" and len(c.args) == 2 and isinstance(c.args[1], ast.Constant) and c.args[1].value == "_djc_is_component_nested"]
+    okown = not shared or bool(resets)
+    chk.ob("S2", "component:_prepare_template:flag-on-loader-shared-template", cm.loc(shared[0]) if shared else cm.loc(gt), okown,
+           "every Template the flag is stored on was created by the library for this purpose (or the flag is taken back after the render)" if okown else
+           f"`{short(shared[0])}` hands _prepare_template the Template object of Django's template loader; with the cached loader (the default outside DEBUG) that very object also serves stock `{{% include %}}` / get_template() of the same file, and the flag stored on it is never taken back: after the component has rendered once, a stock include of that file renders with isolated_context=False and its {{% block %}}s pick up the including page's BlockContext")
 
 
 def s3(chk: Check, proj: Project) -> None:
